@@ -167,6 +167,7 @@ class VClock:
 
 
 CLOCK = VClock()
+CLOCK.install()
 
 
 def clock():
